@@ -96,6 +96,23 @@ def drive_estimator(seed):
                                                pts=np.rint(X * S).astype(int).tolist(), S=S, tol=TOL, key=key, meta=w))
                         except Exception as ex:
                             bad.append(("C13.no-error", dict(exc=type(ex).__name__, **w), None, repr(ex)[:200]))
+        # the same estimator after its bounds have been changed: samples must come from the NEW gamut
+        try:
+            newub = [1] * (n_src - 1) + [0]
+            est.register_bounds(ub=np.array(newub, float) * ubv if any(newub) else None)
+            corners2 = sorted({tuple(int(v) for v in (np.array(A) @ (np.array(x) * np.array(newub) * int(ubv)))) for x in itertools.product([0, 1], repeat=n_src)})
+            if n_src - 1 >= len(A):      # the reduced system must still have a full-dimensional gamut
+                for l1 in (None, 2):
+                    w = dict(op="sample_in_gamut", d=d, engine="None", n=200, l1=l1 is not None, after_register_bounds=True)
+                    X = np.asarray(est.sample_in_gamut(200, seed=seed, **({} if l1 is None else {"l1": float(l1)})), float)
+                    if l1 is None:
+                        events.append(dict(ev="sample", P=[list(c) for c in corners2], n=200, count=int(X.shape[0]), pts=np.rint(X * S).astype(int).tolist(), S=S, tol=TOL,
+                                           key=("est2", repr(A), None), meta=w))
+                    else:
+                        events.append(dict(ev="l1", P=[list(c) for c in corners2 if any(c)], n=200, l1=l1, count=int(X.shape[0]), pts=np.rint(X * S).astype(int).tolist(), S=S, tol=TOL,
+                                           key=("est2", repr(A), l1), meta=w))
+        except Exception as ex:
+            bad.append(("C13.no-error", dict(exc=type(ex).__name__, op="sample_in_gamut", after_register_bounds=True, d=d), None, repr(ex)[:200]))
     return bad, events
 
 
